@@ -569,7 +569,7 @@ def c18_engine(prop, tier, replay, t0):
     verdicts, st, g, res, trace, nrows = table_run('Tab_C18', 'numtab', harness_args=['-neighbours=true'])
     owns = ['C18'] if prop == 'C18' else ['C03']
     return report_table(prop, tier, t0, owns, verdicts, st, g, res, trace, nrows, 'Tab_C18',
-                        'rows = source representation x numeric schema x symbolic magnitude point (23 points at and beyond every type bound, NaN, Inf); each row is concretised at the point and at '
+                        'rows = source representation (Go int, int32, int64, float32, float64, decimal, exponent and zero-fraction strings, JSON numbers, one-element typed Go slices into Slice(schema)) x numeric schema x symbolic magnitude point (29 points at and beyond every type bound, NaN, Inf); each row is concretised at the point and at '
                         'neighbours of the same class; the outcome (same / trunc / issue / changed) is decided exactly with math/big; distinct = distinct (representation, schema, concrete value)',
                         ['magnitude classes are symbolic in TLA+ (32-bit integers): membership of concrete values in classes is decided by the harness with math/big',
                          'decimal strings that float64 cannot represent exactly are not used as float sources'], known=vlib.load_known())
